@@ -26,7 +26,7 @@ def run(ctx, drv):
                            "every non-empty subset of objectives flipped (negated + direction toggled); compared on the real code: all "
                            "pairwise Pareto and epsilon comparisons and same_box, archive membership, non-dominated ranks, hypervolume "
                            "(>= 2 objectives), GD, IGD, additive epsilon. one case = one (set, flip subset); non-trivial = the set has "
-                           "dominated and non-dominated members; distinct by (set, subset)")
+                           "dominated and non-dominated members; distinct by (set, subset) + partial epsilon lists; bounded grid archives (generic values)")
     reqs, post = [], []
 
     def ask(line, fn):
@@ -42,9 +42,14 @@ def run(ctx, drv):
         rpts[0] = [0.0] * nobjs
         rpts[1] = [1.0] * nobjs
         eps = [rng.choice([0.25, 0.5, 0.125])] if lattice else [rng.choice([0.1, 0.3, 0.05])]
+        if nobjs >= 3 and rng.random() < 0.5:
+            # a partial epsilon list (the last value is reused for the remaining objectives) with different values
+            eps = [rng.choice([0.25, 0.5, 0.125] if lattice else [0.1, 0.3, 0.05]) for _ in range(rng.randrange(2, nobjs))]
         subsets = [S for r in range(1, nobjs + 1) for S in itertools.combinations(range(nobjs), r)]
         if ctx.quick() and len(subsets) > 5:
             subsets = rng.sample(subsets, 5)
+
+        rng_cap, rng_div = rng.randrange(2, 5), rng.randrange(2, 4)
 
         def evaluate(dr, P, R):
             p = mk_problem(nobjs, dr, constrained=True)
@@ -61,6 +66,17 @@ def run(ctx, drv):
             for s in sols:
                 ea.add(s)
             out["eps_archive"] = sorted(sols.index(m) for m in ea)
+            # bounded grid archive (PAES / PESA2): same members whatever the direction encoding, also when cells tie for the densest
+            # (generic values only: on a lattice a point can sit exactly on a cell boundary, and the cells are half-open towards the
+            # upper side of the raw value, so mirroring moves it to the neighbouring cell -- bookkeeping of C14, not a direction fact)
+            if not lattice:
+                ga = C.AdaptiveGridArchive(rng_cap, nobjs, rng_div)
+                for s in sols:
+                    if s.constraint_violation == 0:
+                        call(ga.add, s)
+                out["grid_archive"] = sorted(sols.index(m) for m in ga)
+            else:
+                out["grid_archive"] = None
             work = list(sols)
             C.nondominated_sort(work)
             out["ranks"] = [s.rank for s in sols]
@@ -81,13 +97,14 @@ def run(ctx, drv):
             _, fr = flipped(dirs, set(S), rpts)
             other, fsols, fref = evaluate(fd, fp, fr)
             inp = {"maximise": list(dirs), "flipped_objectives": list(S), "set": [[p, cv] for p, cv in zip(pts, cvs)], "reference": rpts, "epsilons": eps}
-            for key in ("pareto", "eps", "same_box", "archive", "eps_archive", "ranks"):
+            for key in ("pareto", "eps", "same_box", "archive", "eps_archive", "ranks", "grid_archive"):
                 if base[key] != other[key]:
                     cls = None
                     if key in ("eps", "same_box", "eps_archive") and not lattice:
                         cls = "epsilon-box-rounding"      # floor(-x/eps) vs floor(x/eps) off the lattice: boxes are half-open on different sides
                     ctx.fail(f"{key}-changes-under-flip", inp, other[key], base[key], {"pareto": "core.ParetoDominance", "eps": "core.EpsilonDominance",
-                             "same_box": "core.EpsilonDominance", "archive": "core.Archive", "eps_archive": "core.EpsilonBoxArchive", "ranks": "core.nondominated_sort"}[key])
+                             "same_box": "core.EpsilonDominance", "archive": "core.Archive", "eps_archive": "core.EpsilonBoxArchive", "ranks": "core.nondominated_sort",
+                             "grid_archive": "core.AdaptiveGridArchive"}[key])
                     ctx.failures[-1]["input_class"] = cls
                     break
             for key in ("gd", "igd", "epsind", "hv_ref", "hv_bounds"):
